@@ -7,6 +7,7 @@ import (
 	"fmt"
 	"net/url"
 	"path"
+	"sort"
 
 	"github.com/benoitkugler/webrender/logger"
 	mt "github.com/benoitkugler/webrender/matrix"
@@ -316,7 +317,14 @@ func (d *Document) resolveLinks() ([][]Link, [][]backend.Anchor) {
 	pagedAnchors := make([][]backend.Anchor, len(d.Pages))
 	for i, page := range d.Pages {
 		var current []backend.Anchor
-		for anchorName, pos := range page.anchors {
+		// iterate in a deterministic order (map iteration is randomized)
+		anchorNames := make([]string, 0, len(page.anchors))
+		for anchorName := range page.anchors {
+			anchorNames = append(anchorNames, anchorName)
+		}
+		sort.Strings(anchorNames)
+		for _, anchorName := range anchorNames {
+			pos := page.anchors[anchorName]
 			if !anchors.Has(anchorName) {
 				current = append(current, backend.Anchor{Name: anchorName, X: pos[0], Y: pos[1]})
 				anchors.Add(anchorName)
